@@ -11,6 +11,7 @@ import (
 	"math"
 	"net/http"
 	"net/http/httptest"
+	"net/url"
 	"os"
 	"reflect"
 	"regexp"
@@ -501,6 +502,16 @@ func c06HistoryScenario(maxLen int, first int) mc.Scenario {
 	}
 }
 
+// c06ScalarTexts: every printable ASCII character on its own, and short texts built from quotes, escapes and blanks.
+func c06ScalarTexts() []string {
+	var out []string
+	for c := byte(0x20); c < 0x7f; c++ {
+		out = append(out, string([]byte{c}))
+	}
+	out = append(out, "", "\"\"", "''", "\"a", "a\"", "\"a\"", "'a'", "\"'", "\\", "\\\"", " \" ", "\t", "\n", "a\nb", "\x00", "\xff", "%zz", "+", "a=b", "a&b", "[]", "[", "{}", "${HOME}", "$a", "0x10", "1e400", "-", "--", "..", "9223372036854775808")
+	return out
+}
+
 func c06JSONTexts() []string {
 	doc := `{"a":"x","b":1,"n":{"a":"y"},"l":[1,2],"p":{"a":"z","b":2},"q":3}`
 	texts := []string{`{}`, `[]`, `null`, `1`, `"s"`, `true`, ``, ` `, `{`, `}`, `{"a":}`, `{"a":"x","a":"y"}`, `{"a":null,"b":null}`,
@@ -549,7 +560,7 @@ func c06FrontScenario() mc.Scenario {
 		zh.Reset()
 		zh.Install(x, zh.PoolLIFO, zh.OrderFree)
 		si := x.Choose(len(schemas), "schema")
-		fe := x.Choose(6, "frontend")
+		fe := x.Choose(7, "frontend")
 		var input string
 		var mk func() any
 		switch fe {
@@ -601,6 +612,34 @@ func c06FrontScenario() mc.Scenario {
 					os.Setenv("a", "\xff")
 					os.Setenv("n", "x")
 					os.Setenv("p", "y")
+				}
+				return zenv.NewDataProvider()
+			}
+		case 6:
+			// one scalar text as the value of one parameter, through each flat channel (canonical field order: the
+			// other front-end cases of this item enumerate the visit orders)
+			zh.Install(x, zh.PoolLIFO, zh.OrderSorted)
+			texts := c06ScalarTexts()
+			t := texts[x.Choose(len(texts), "text")]
+			param := []string{"a", "b", "l", "q", "n", "p"}[x.Choose(6, "param")]
+			ch := x.Choose(3, "channel")
+			input = fmt.Sprintf("%s parameter %s = %q", []string{"form", "query", "environment"}[ch], param, t)
+			mk = func() any {
+				switch ch {
+				case 0:
+					r := httptest.NewRequest(http.MethodPost, "/", strings.NewReader(param+"="+url.QueryEscape(t)))
+					r.Header.Set("Content-Type", "application/x-www-form-urlencoded")
+					return zhttp.Request(r)
+				case 1:
+					r := httptest.NewRequest(http.MethodGet, "/", nil)
+					r.URL.RawQuery = param + "=" + url.QueryEscape(t)
+					return zhttp.Request(r)
+				}
+				for _, k := range []string{"a", "b", "n", "l", "p", "q"} {
+					os.Unsetenv(k)
+				}
+				if !strings.ContainsRune(t, 0) {
+					os.Setenv(param, t)
 				}
 				return zenv.NewDataProvider()
 			}
